@@ -367,6 +367,25 @@ fn c03(quick: bool) -> Vec<Harness> {
         cfg.report = vec!["C03"];
         v.push(ops_harness(&format!("sq{sq}"), "C03", cfg, bounds(d(9, 11), d(3, 4), 4)));
     }
+    // Operations that become ready with their *second* completion (zero-copy sends), and streams of
+    // descriptors / readiness events, next to a plain operation.
+    for (name, kinds, zc_notif) in [("two-step", vec![Kind::SendZc, Kind::ReadVec], true), ("two-step-error-without-notif", vec![Kind::SendVectoredZc], false), ("streams", vec![Kind::MultishotAccept, Kind::Pollable], true)] {
+        let mut cfg = Cfg::base("C03");
+        cfg.sq = 2;
+        cfg.kinds = kinds;
+        cfg.max_ops = 2;
+        cfg.allow_drop = true;
+        cfg.allow_fresh = true;
+        cfg.errors = true;
+        cfg.shorts = false;
+        cfg.faults = true;
+        cfg.zc_error_notif = zc_notif;
+        cfg.costs.spurious_poll = 1;
+        cfg.costs.drop_op = 1;
+        cfg.costs.fresh_waker = 1;
+        cfg.report = vec!["C03"];
+        v.push(ops_harness(name, "C03", cfg, bounds(d(9, 11), d(3, 4), 4)));
+    }
     v
 }
 
